@@ -828,7 +828,12 @@ def run(ctx):
             if not ents:
                 ctx.fail("C04-R5", lm.path, "option " + key, "no store to `%s`" % f, lm.loc())
                 continue
+            FORMAT_DEFAULT = {"stage": 0, "use_log_gain": False}
             for keys, vals, val, st in ents:
+                if keys == [] and f in FORMAT_DEFAULT and val[0] == "c" and isinstance(val[1], bool) == isinstance(FORMAT_DEFAULT[f], bool) and val[1] == FORMAT_DEFAULT[f] \
+                        and not any(g[0] == "some" for g in paths.guards(lm, [bb_ for bb_, i_, st_, *_r in stores(lm, eb) if st_ is st][0], eb)):
+                    ctx.ok("C04-R5", "`%s` is reset to the format's default %s before the option line is read (a voice without the key does not inherit an earlier voice's value)" % (f, FORMAT_DEFAULT[f]), cm.loc_of(st["span"]))
+                    continue
                 if keys != [key]:
                     ctx.fail("C04-R5", lm.path, "option " + key, "`%s` is stored under option key(s) %s, expected %s" % (f, keys, key), cm.loc_of(st["span"]))
                     continue
